@@ -114,15 +114,19 @@ def forbidden_variants(model, vars_, assignment):
                 yield from positions(f.type, v[f.name], path + [f.name])
 
     def put(root, path, value, delete=False):
-        r = copy.deepcopy(root)
-        cur = r
-        for k in path[:-1]:
-            cur = cur[k]
-        if delete:
-            del cur[path[-1]]
-        else:
-            cur[path[-1]] = value
-        return r
+        """Copy of `root` with the position changed; only the containers along the path are copied (the rest is shared)."""
+        def rec(node, i):
+            k = path[i]
+            c = dict(node) if isinstance(node, dict) else list(node)
+            if i == len(path) - 1:
+                if delete:
+                    del c[k]
+                else:
+                    c[k] = value
+            else:
+                c[k] = rec(node[k], i + 1)
+            return c
+        return rec(root, 0)
 
     def get(root, path):
         cur = root
@@ -227,126 +231,142 @@ def run(tier):
         m["case"] = farm.add(Case(r["tokens"], [("op", "Op")], prelude="pub type Date = String; pub type date_time = String; pub type DateTime = String;", resp=False))
     farm.build()
     model = InputModel(schema)
-    reqs, meta = [], []
-    neg_reqs, neg_meta = [], []
-    vec_cache = {}
-    for m in mods:
-        if not m["case"]:
-            continue
-        fc = farm.cases[m["case"]]
-        if not fc.compiles:
-            sigs = set()
-            if m["opts"]["normalization"] == "rust" and any(gql.named(t) == "ID" for _, t in m["vars"]):
-                sigs.add("id_variable_with_rust_normalization")
-            rep.violation("does_not_compile", m["label"], [(e["code"], e["message"][:150]) for e in fc.errors[:2]], sigs)
-            continue
-
-        def build(ch, m=m):
-            return {n: model.value(t, ch, n) for n, t in m["vars"]}
-
-        cap = 2500 if tier == "quick" else 30000
-        if m["what"] in vec_cache:
-            dev, vecs = vec_cache[m["what"]]
-        else:
-            probe = gql.Chooser()
-            build(probe)
-            alts = sum(a - 1 for a in probe.arity)
-            dev = 2 if 1 + alts + alts * alts // 2 <= cap * 2 else 1
-            vecs = list(gql.explore_choices(build, dev, cap + 1))
-            if len(vecs) > cap:
-                vecs = list(gql.explore_choices(build, 1, cap + 1))
-                dev = 1
-            vec_cache[m["what"]] = (dev, vecs)
-        m["dev"], m["nvec"] = dev, len(vecs)
-        for choices, labels, assignment in vecs:
-            reqs.append({"case": m["case"], "module": "op", "what": "vars", "arg": assignment if m["vars"] else None})
-            meta.append((m, assignment))
-        # values of `Variables` that must not exist: built from the richest assignment and (for reach) from the vectors
-        # that differ from it in one choice
-        if m["vars"]:
-            seenf = set()
-            for choices, labels, assignment in vecs[:(3 if tier == "quick" else 60)]:
-                for desc, path, variant in forbidden_variants(model, m["vars"], assignment):
-                    k = json.dumps([desc, variant], sort_keys=True)
-                    if k in seenf:
-                        continue
-                    seenf.add(k)
-                    neg_reqs.append({"case": m["case"], "module": "op", "what": "vars", "arg": variant})
-                    neg_meta.append((m, desc, path, variant))
-    log(f"[C04] {len(mods)} modules, {len(reqs)} assignments")
-    fres = farm.run(reqs)
-    distinct = set()
     outcomes = {}
     per = {}
-    for (m, assignment), r in zip(meta, fres):
-        label = dict(m["label"], assignment=assignment)
-        distinct.add((m["what"], json.dumps(assignment, sort_keys=True)))
-        key = m["case"]
-        if not r or not r.get("ok"):
-            outcomes["rejected"] = outcomes.get("rejected", 0) + 1
-            per[key] = per.get(key, 0) + 1
-            if per[key] <= 3:
-                rep.violation("valid_assignment_not_expressible", label, (r or {}).get("err"))
+    n_assign = n_forbidden = n_distinct = 0
+    sample_pool = []
+    cap = 2500 if tier == "quick" else 10000
+    groups = {}
+    for m in mods:
+        groups.setdefault(m["what"], []).append(m)
+    pending = []   # (module, assignment, None) or (module, forbidden variant, (description, path))
+    BATCH = 12000  # requests held in memory at a time (whole operations are batched together: all shards stay busy)
+
+    def flush():
+        if not pending:
+            return
+        res = farm.run([{"case": m["case"], "module": "op", "what": "vars", "arg": a if m["vars"] else None} for m, a, _ in pending])
+        for (m, assignment, neg), r in zip(pending, res):
+            key = m["case"]
+            if neg is not None:
+                desc, path = neg
+                if not r or not r.get("ok"):
+                    outcomes["forbidden_rejected"] = outcomes.get("forbidden_rejected", 0) + 1
+                    continue
+                got = json.loads(r["out"]).get("variables")
+                cur, present = got, True
+                for k in path:
+                    try:
+                        cur = cur[k]
+                    except (KeyError, IndexError, TypeError):
+                        present = False
+                        break
+                bad = (not present) or cur is None or (desc.startswith("@oneOf") and (not isinstance(cur, dict) or len(cur) != 1 or None in cur.values()))
+                okey = "forbidden_accepted_" + ("invalid_output" if bad else "repaired_output")
+                outcomes[okey] = outcomes.get(okey, 0) + 1
+                if bad:
+                    nkey = (m["case"], "neg")
+                    per[nkey] = per.get(nkey, 0) + 1
+                    if per[nkey] <= 3:
+                        rep.violation("variables_value_serialises_to_invalid_json", dict(m["label"], what_is_wrong=desc, at=path, accepted=assignment),
+                                      {"serialised_variables": got})
+                continue
+            if not r or not r.get("ok"):
+                outcomes["rejected"] = outcomes.get("rejected", 0) + 1
+                per[key] = per.get(key, 0) + 1
+                if per[key] <= 3:
+                    rep.violation("valid_assignment_not_expressible", dict(m["label"], assignment=assignment), (r or {}).get("err"))
+                continue
+            outcomes["ok"] = outcomes.get("ok", 0) + 1
+            body = json.loads(r["out"])
+            problems = []
+            if sorted(body) != ["operationName", "query", "variables"]:
+                problems.append("body members %s" % sorted(body))
+            want = {}
+            for n, t in m["vars"]:
+                e = model.expected(assignment[n], t, m["opts"]["skip_none"], struct_level=True)
+                if e is not DROP:
+                    want[n] = e
+            got = body.get("variables")
+            if not m["vars"]:
+                if got is not None and got != {}:
+                    problems.append("variables %r for an operation without variables" % (got,))
+            elif not same(got, want):
+                problems.append("variables %s, model says %s" % (json.dumps(got)[:300], json.dumps(want)[:300]))
+            if body.get("operationName") != "Op":
+                problems.append("operationName %r" % body.get("operationName"))
+            if problems:
+                per[key] = per.get(key, 0) + 1
+                if per[key] <= 3:
+                    rep.violation("variables_differ_from_model", dict(m["label"], assignment=assignment), problems)
+        del pending[:]
+
+    # one operation at a time, and within it one module (option set) at a time: vectors are built, run, judged and
+    # dropped, which bounds the memory held in requests and answers
+    for what, gmods in groups.items():
+        live = []
+        for m in gmods:
+            if not m["case"]:
+                continue
+            fc = farm.cases[m["case"]]
+            if not fc.compiles:
+                sigs = set()
+                if m["opts"]["normalization"] == "rust" and any(gql.named(t) == "ID" for _, t in m["vars"]):
+                    sigs.add("id_variable_with_rust_normalization")
+                rep.violation("does_not_compile", m["label"], [(e["code"], e["message"][:150]) for e in fc.errors[:2]], sigs)
+                continue
+            live.append(m)
+        if not live:
             continue
-        outcomes["ok"] = outcomes.get("ok", 0) + 1
-        body = json.loads(r["out"])
-        problems = []
-        if sorted(body) != ["operationName", "query", "variables"]:
-            problems.append("body members %s" % sorted(body))
-        want = {}
-        for n, t in m["vars"]:
-            e = model.expected(assignment[n], t, m["opts"]["skip_none"], struct_level=True)
-            if e is not DROP:
-                want[n] = e
-        got = body.get("variables")
-        if not m["vars"]:
-            if got is not None and got != {}:
-                problems.append("variables %r for an operation without variables" % (got,))
-        elif not same(got, want):
-            problems.append("variables %s, model says %s" % (json.dumps(got)[:300], json.dumps(want)[:300]))
-        if body.get("operationName") != "Op":
-            problems.append("operationName %r" % body.get("operationName"))
-        if problems:
-            per[key] = per.get(key, 0) + 1
-            if per[key] <= 3:
-                rep.violation("variables_differ_from_model", label, problems)
-    # ---- forbidden values: an accepted invalid assignment is a `Variables` value that serialises to invalid JSON
-    nres = farm.run(neg_reqs)
-    neg_accepted = 0
-    for (m, desc, path, variant), r in zip(neg_meta, nres):
-        if not r or not r.get("ok"):
-            outcomes["forbidden_rejected"] = outcomes.get("forbidden_rejected", 0) + 1
-            continue
-        neg_accepted += 1
-        got = json.loads(r["out"]).get("variables")
-        cur, present = got, True
-        for k in path:
-            try:
-                cur = cur[k]
-            except (KeyError, IndexError, TypeError):
-                present = False
-                break
-        bad = (not present) or cur is None or (desc.startswith("@oneOf") and (not isinstance(cur, dict) or len(cur) != 1 or None in cur.values()))
-        outcomes["forbidden_accepted_" + ("invalid_output" if bad else "repaired_output")] = outcomes.get("forbidden_accepted_" + ("invalid_output" if bad else "repaired_output"), 0) + 1
-        if bad:
-            key = (m["case"], "neg")
-            per[key] = per.get(key, 0) + 1
-            if per[key] <= 3:
-                rep.violation("variables_value_serialises_to_invalid_json", dict(m["label"], what_is_wrong=desc, at=path, accepted=variant),
-                              {"serialised_variables": got})
+        m0 = live[0]
+
+        def build(ch, m=m0):
+            return {n: model.value(t, ch, n) for n, t in m["vars"]}
+
+        probe = gql.Chooser()
+        build(probe)
+        alts = sum(a - 1 for a in probe.arity)
+        dev = 2 if 1 + alts + alts * alts // 2 <= cap * 2 else 1
+        vecs = [a for _, _, a in gql.explore_choices(build, dev, cap + 1)]
+        if len(vecs) > cap:
+            vecs = [a for _, _, a in gql.explore_choices(build, 1, cap + 1)]
+            dev = 1
+        n_distinct += len(vecs)
+        forb = []
+        if m0["vars"]:
+            seenf = set()
+            for assignment in vecs[:(3 if tier == "quick" else 12)]:
+                for desc, path, variant in forbidden_variants(model, m0["vars"], assignment):
+                    k = json.dumps([desc, variant], sort_keys=True)
+                    if k not in seenf:
+                        seenf.add(k)
+                        forb.append((desc, path, variant))
+        for m in live:
+            m["dev"], m["nvec"] = dev, len(vecs)
+            pending.extend((m, a, None) for a in vecs)
+            pending.extend((m, variant, (desc, path)) for desc, path, variant in forb)
+            n_assign += len(vecs)
+            n_forbidden += len(forb)
+            if len(sample_pool) < 400:
+                sample_pool += [{"what": m["what"], "options": m["opts"], "assignment": a} for a in vecs[:3]]
+        del vecs, forb
+        if len(pending) >= BATCH:
+            flush()
+    flush()
+    log(f"[C04] {len(mods)} modules, {n_assign} assignments, {n_forbidden} forbidden assignments")
     cov = {
-        "evaluations": len(reqs) + len(neg_reqs), "distinct_nontrivial": len(distinct), "forbidden_assignments": len(neg_reqs),
+        "evaluations": n_assign + n_forbidden, "distinct_nontrivial": n_distinct, "forbidden_assignments": n_forbidden,
         "rule": "operations: one per named input type {Int, Float, String, Boolean, ID, custom scalar, enum, input object, "
                 "recursive input object, @oneOf input} declaring a variable for every type expression of list depth <= %d, "
                 "plus special variable names (camelCase, keywords, leading underscore, SCREAMING) and an operation without "
                 "variables; x skip_serializing_none {off, on} x normalization {none, rust}; assignments = every choice vector "
                 "(null / value at each nullable member, list lengths 1/0/2, scalar boundary values, each enum value, each @oneOf "
-                "member, recursion depth <= 2) within deviation bound 2 of the richest assignment (1 when bound 2 exceeds the per-module cap: 2500 quick, 30000 thorough); "
+                "member, recursion depth <= 2) within deviation bound 2 of the richest assignment (1 when bound 2 exceeds the per-module cap: 2500 quick, 10000 thorough); "
                 "distinct = (operation, assignment); plus, per module, every invalid neighbour of the richest assignments (null or "
                 "missing key at each non-null position, @oneOf with a null / no / two members): Deserialize must refuse it, "
                 "otherwise a Variables value exists that serialises to invalid JSON" % depth,
         "modules": len(mods), "distinct_outcomes": outcomes, "exhaustive": False,
         "per_module": pick_samples([{"what": m["what"], "options": m["opts"], "vectors": m.get("nvec"), "deviation_bound": m.get("dev")} for m in mods], 8),
-        "samples": pick_samples([{"what": m["what"], "options": m["opts"], "assignment": a} for m, a in meta], 5),
+        "samples": pick_samples(sample_pool, 5),
     }
     return rep.finish(cov, ["ID values in variables are strings (Variables is the user's own value; the generated type is String)"])
